@@ -122,8 +122,28 @@ def mkvar(v, parent=None):
                            parent_or_seq_chunk_parent=parent)
 
 
-def mkvc(spec, parent=None, sequence_name="chr1"):
-    return VariantIntervalCollection([mkvar(v, parent) for v in spec["variants"]], variant_collection_name=spec.get("variant_collection_name"),
+def mkvc(spec, parent=None, sequence_name="chr1", preused=None, other_parent=None):
+    """preused: the child VariantInterval objects are not fresh - they were built on another reference and asked for their
+    alternative sequence ("other_reference"), or built without any parent and used for a coordinate lift ("sequence_less"),
+    before this collection adopts them (the constructor re-parents its children)"""
+    if preused == "other_reference" and other_parent is not None:
+        kids = [mkvar(v, other_parent) for v in spec["variants"]]
+        for k in kids:
+            try:
+                k.alternative_genomic_sequence
+            except Exception:
+                pass
+    elif preused == "sequence_less":
+        kids = [mkvar(v, None) for v in spec["variants"]]
+        for k in kids:
+            try:
+                k.lift_over_location(SingleInterval(k.start, k.end + 1, STRAND["+"]))
+                k.has_sequence
+            except Exception:
+                pass
+    else:
+        kids = [mkvar(v, parent) for v in spec["variants"]]
+    return VariantIntervalCollection(kids, variant_collection_name=spec.get("variant_collection_name"),
                                      variant_collection_id=spec.get("variant_collection_id"), sequence_name=sequence_name,
                                      qualifiers=spec.get("qualifiers") or None, parent_or_seq_chunk_parent=parent)
 
